@@ -217,10 +217,20 @@ class ResponseHandler(BaseProtocol, DataQueue[tuple[RawResponseMessage, StreamRe
         super().pause_reading()
         self._drop_timeout()
 
+    def _response_awaited(self) -> bool:
+        """Whether more data is expected: the read timeout only runs then."""
+        return (
+            self._payload_parser is not None
+            or self._payload is None
+            or not self._payload.is_eof()
+        )
+
     def resume_reading(self, resume_parser: bool = True) -> None:
         was_paused = self._reading_paused
         super().resume_reading(resume_parser)
-        if was_paused:
+        # Re-entering the parser may have completed the response (the
+        # connection may be back in the pool by now) or paused reading again.
+        if was_paused and not self._reading_paused and self._response_awaited():
             self._reschedule_timeout()
 
     def set_exception(
@@ -267,6 +277,9 @@ class ResponseHandler(BaseProtocol, DataQueue[tuple[RawResponseMessage, StreamRe
         # idled in the pool, a partial line left in the old parser) is not an
         # answer to that request and must never be taken for one.
         stale = bool(self._buffer) or self._parser_has_leftover()
+
+        # a new exchange: the previous response's payload is not ours any more
+        self._payload = None
 
         self._skip_payload = skip_payload
 
@@ -317,7 +330,11 @@ class ResponseHandler(BaseProtocol, DataQueue[tuple[RawResponseMessage, StreamRe
             self._read_timeout_handle = None
 
     def start_timeout(self) -> None:
-        self._reschedule_timeout()
+        # The response may be complete before the request has been written
+        # out, or reading may be paused by a slow consumer (resuming starts
+        # the timer): nothing to time in either case.
+        if not self._reading_paused and self._response_awaited():
+            self._reschedule_timeout()
 
     @property
     def read_timeout(self) -> float | None:
@@ -336,7 +353,8 @@ class ResponseHandler(BaseProtocol, DataQueue[tuple[RawResponseMessage, StreamRe
     def data_received(self, data: bytes) -> None:
         # If no data, then we are resuming decompression. We haven't received
         # data from the socket, so we can avoid the reschedule overhead.
-        if data:
+        if data and self._response_awaited():
+            # (stray bytes behind a complete response do not start the timer)
             self._reschedule_timeout()
 
         # custom payload parser - currently always WebSocketReader
